@@ -8,8 +8,8 @@ From VF Require gen.Gen_C09.
 Local Open Scope N_scope.
 
 Definition alice_history_r : list input :=
-  [ICreateInv 2 3; IRecv (MRequest DX 6 6 2 7 (Some (Doc 7 [8] 9 10))) 17 (Doc 14 [15] 11 16);
-   IRecv (MComplete DX 6 6) 0 (Doc 0 [] 0 0)].
+  [ICreateInv 2 3; IRecv (MRequest DX 6 6 2 7 (Some (doc1 7 [8] 9 10))) 17 (doc1 14 [15] 11 16);
+   IRecv (MComplete DX 6 6) 0 doc0].
 
 (* NO RE-POINTING (full).  For every agent state, every peer DID d that resolves to a document there, and EVERY
    sequence of inputs afterwards — messages of any type from anybody, on any thread, carrying any DID, document,
@@ -48,10 +48,10 @@ Print Assumptions completed_is_terminal.
    the state check on the first and was handled on the second: bob's completed record got mallory's DID as peer
    (corpus/C10/response-case-remap.json). *)
 Definition bob_history : list input :=
-  [IAcceptInv DX 2 3 11 12 6 (Doc 7 [8] 9 10); IRecv (MResponse DX 6 6 14 (Some (Doc 14 [15] 11 16)) 0) 0 (Doc 0 [] 0 0);
-   IAcceptInv DX 50 51 21 52 53 (Doc 54 [55] 9 56)].
+  [IAcceptInv DX 2 3 11 12 6 (doc1 7 [8] 9 10); IRecv (MResponse DX 6 6 14 (Some (doc1 14 [15] 11 16)) 0) 0 doc0;
+   IAcceptInv DX 50 51 21 52 53 (doc1 54 [55] 9 56)].
 Theorem completed_is_terminal_asis_refuted :
-  let hostile := IRecv (MResponse DX 53 6 41 (Some (Doc 41 [20] 21 42)) 0) 0 (Doc 0 [] 0 0) in
+  let hostile := IRecv (MResponse DX 53 6 41 (Some (doc1 41 [20] 21 42)) 0) 0 doc0 in
   record (final AsIs agent0 bob_history) 12 = Some (Conn My 6 SCompleted 7 14 3) /\
   record (final AsIs agent0 (bob_history ++ [hostile])) 12 = Some (Conn My 6 SCompleted 7 41 3) /\
   record (final Fixed agent0 (bob_history ++ [hostile])) 12 = Some (Conn My 6 SCompleted 7 14 3).
@@ -69,10 +69,10 @@ Print Assumptions completed_is_terminal_asis_partial.
 Theorem rotation_by_peer_only :
   let a := final Fixed agent0 alice_history_r in
   record a 17 = Some (Conn Their 6 SCompleted 14 7 0) /\
-  record (final Fixed a [IRecv (MRotate 7 90 7 8 15) 0 (Doc 0 [] 0 0)]) 17 = Some (Conn Their 6 SCompleted 14 7 0) /\
-  record (final Fixed a [IRecv (MInit (Doc 90 [91] 9 92) 91 15) 0 (Doc 0 [] 0 0); IRecv (MRotate 7 90 7 91 15) 0 (Doc 0 [] 0 0)]) 17
+  record (final Fixed a [IRecv (MRotate 7 90 7 8 15) 0 doc0]) 17 = Some (Conn Their 6 SCompleted 14 7 0) /\
+  record (final Fixed a [IRecv (MInit (doc1 90 [91] 9 92) 91 15) 0 doc0; IRecv (MRotate 7 90 7 91 15) 0 doc0]) 17
     = Some (Conn Their 6 SCompleted 14 90 0) /\
-  record (final Fixed a [IRecv (MInit (Doc 90 [91] 9 92) 91 15) 0 (Doc 0 [] 0 0); IRecv (MRotate 7 90 90 91 15) 0 (Doc 0 [] 0 0)]) 17
+  record (final Fixed a [IRecv (MInit (doc1 90 [91] 9 92) 91 15) 0 doc0; IRecv (MRotate 7 90 90 91 15) 0 doc0]) 17
     = Some (Conn Their 6 SCompleted 14 7 0).
 Proof. vm_compute. repeat split. Qed.
 Print Assumptions rotation_by_peer_only.
@@ -93,23 +93,23 @@ Print Assumptions no_crosstalk.
    exchange passed the state check and re-mapped that thread to a new record (corpus/C10/thread-remap.json). *)
 Theorem no_crosstalk_asis_refuted :
   let a := final AsIs agent0 [ICreateInv 2 3; ICreateInv 27 28;
-                              IRecv (MRequest DX 6 6 2 7 (Some (Doc 7 [8] 9 10))) 17 (Doc 14 [15] 11 16)] in
-  let i := IRecv (MRequest DX 29 6 27 41 (Some (Doc 41 [20] 21 42))) 43 (Doc 44 [45] 11 46) in
+                              IRecv (MRequest DX 6 6 2 7 (Some (doc1 7 [8] 9 10))) 17 (doc1 14 [15] 11 16)] in
+  let i := IRecv (MRequest DX 29 6 27 41 (Some (doc1 41 [20] 21 42))) 43 (doc1 44 [45] 11 46) in
   foreign Their 6 17 i /\ owns a Their 6 17 /\
   tget (a_thmap (fst (step AsIs a i))) Their 6 = Some 43 /\
   (* bob's complete now completes mallory's record and leaves his own at responded *)
-  (let a' := final AsIs a [i; IRecv (MComplete DX 6 6) 0 (Doc 0 [] 0 0)] in
+  (let a' := final AsIs a [i; IRecv (MComplete DX 6 6) 0 doc0] in
    completed_at a' 43 = true /\ completed_at a' 17 = false) /\
   (let a' := final Fixed (final Fixed agent0 [ICreateInv 2 3; ICreateInv 27 28;
-                              IRecv (MRequest DX 6 6 2 7 (Some (Doc 7 [8] 9 10))) 17 (Doc 14 [15] 11 16)])
-                   [i; IRecv (MComplete DX 6 6) 0 (Doc 0 [] 0 0)] in
+                              IRecv (MRequest DX 6 6 2 7 (Some (doc1 7 [8] 9 10))) 17 (doc1 14 [15] 11 16)])
+                   [i; IRecv (MComplete DX 6 6) 0 doc0] in
    completed_at a' 17 = true /\ record a' 43 = None).
 Proof.
   cbv zeta. split; [split; [reflexivity|cbn; congruence]|].
   split; [split; [reflexivity|]|].
   - intros n' t' H.
     assert (E : a_thmap (final AsIs agent0 [ICreateInv 2 3; ICreateInv 27 28;
-                  IRecv (MRequest DX 6 6 2 7 (Some (Doc 7 [8] 9 10))) 17 (Doc 14 [15] 11 16)]) = [((Their, 6), 17)])
+                  IRecv (MRequest DX 6 6 2 7 (Some (doc1 7 [8] 9 10))) 17 (doc1 14 [15] 11 16)]) = [((Their, 6), 17)])
       by (vm_compute; reflexivity).
     rewrite E, tget_cons in H. destruct (ns_eqb n' Their && (t' =? 6)) eqn:Q; [|discriminate].
     apply andb_true_iff in Q. destruct Q as [Q1 Q2]. apply ns_eqb_eq in Q1. apply N.eqb_eq in Q2. auto.
@@ -135,16 +135,16 @@ Print Assumptions no_crosstalk_asis_partial.
    invitation, arriving before Alice's, is accepted: Bob completes with the impostor's identifier and document while
    Alice runs the thread under hers; her genuine response is then refused. *)
 Theorem mutual_refuted_forged_response :
-  let docB := Doc 7 [8] 9 10 in let myA := Doc 14 [15] 11 16 in let docM := Doc 41 [20] 21 42 in
+  let docB := doc1 7 [8] 9 10 in let myA := doc1 14 [15] 11 16 in let docM := doc1 41 [20] 21 42 in
   let A1 := final Fixed agent0 [ICreateInv 2 3] in
   let B2 := fst (step Fixed agent0 (IAcceptInv DX 2 3 11 12 6 docB)) in
   let A2 := fst (step Fixed A1 (IRecv (MRequest DX 6 6 2 7 (Some docB)) 17 myA)) in
   (* the forged response overtakes the genuine one *)
-  let B3 := fst (step Fixed B2 (IRecv (MResponse DX 6 6 41 (Some docM) 0) 0 (Doc 0 [] 0 0))) in
+  let B3 := fst (step Fixed B2 (IRecv (MResponse DX 6 6 41 (Some docM) 0) 0 doc0)) in
   snd (step Fixed A1 (IRecv (MRequest DX 6 6 2 7 (Some docB)) 17 myA)) = [OSend 9 [8] (MResponse DX 6 6 14 (Some myA) 3)] /\
   record B3 12 = Some (Conn My 6 SCompleted 7 41 3) /\ resolve B3 41 = Some docM /\
   record A2 17 = Some (Conn Their 6 SResponded 14 7 0) /\
-  snd (step Fixed B3 (IRecv (MResponse DX 6 6 14 (Some myA) 3) 0 (Doc 0 [] 0 0))) = [OReject].
+  snd (step Fixed B3 (IRecv (MResponse DX 6 6 14 (Some myA) 3) 0 doc0)) = [OReject].
 Proof. vm_compute. repeat split. Qed.
 Print Assumptions mutual_refuted_forged_response.
 
@@ -258,34 +258,34 @@ Print Assumptions state_machine_is_generated_graph.
 (* alice: invitation 2 (key 3); bob's request (thread 6, DID 7, keys [8], endpoint 9); complete; then mallory's
    request on a fresh thread 29 naming DID 7 with her own key 20 and endpoint 21 (corpus/C10/repoint-request.json) *)
 Definition alice_history : list input :=
-  [ICreateInv 2 3; IRecv (MRequest DX 6 6 2 7 (Some (Doc 7 [8] 9 10))) 17 (Doc 14 [15] 11 16);
-   IRecv (MComplete DX 6 6) 0 (Doc 0 [] 0 0)].
+  [ICreateInv 2 3; IRecv (MRequest DX 6 6 2 7 (Some (doc1 7 [8] 9 10))) 17 (doc1 14 [15] 11 16);
+   IRecv (MComplete DX 6 6) 0 doc0].
 Definition mallory_repoint : list input :=
-  [ICreateInv 27 28; IRecv (MRequest DX 29 29 27 7 (Some (Doc 7 [20] 21 30))) 31 (Doc 32 [33] 11 34)].
+  [ICreateInv 27 28; IRecv (MRequest DX 29 29 27 7 (Some (doc1 7 [20] 21 30))) 31 (doc1 32 [33] 11 34)].
 (* mallory's own exchange (thread 40) with a new DID 41 whose document lists bob's key 8 next to her key 20 *)
 Definition mallory_keysteal : list input :=
-  [ICreateInv 27 28; IRecv (MRequest DX 40 40 27 41 (Some (Doc 41 [20; 8] 21 42))) 43 (Doc 44 [45] 11 46);
-   IRecv (MComplete DX 40 40) 0 (Doc 0 [] 0 0)].
+  [ICreateInv 27 28; IRecv (MRequest DX 40 40 27 41 (Some (doc1 41 [20; 8] 21 42))) 43 (doc1 44 [45] 11 46);
+   IRecv (MComplete DX 40 40) 0 doc0].
 
 Theorem no_repoint_asis_refuted :
   let a := final AsIs agent0 alice_history in
-  completed_at a 17 = true /\ resolve a 7 = Some (Doc 7 [8] 9 10) /\
-  resolve (final AsIs a mallory_repoint) 7 = Some (Doc 7 [20] 21 30) /\
-  resolve (final Fixed (final Fixed agent0 alice_history) mallory_repoint) 7 = Some (Doc 7 [8] 9 10).
+  completed_at a 17 = true /\ resolve a 7 = Some (doc1 7 [8] 9 10) /\
+  resolve (final AsIs a mallory_repoint) 7 = Some (doc1 7 [20] 21 30) /\
+  resolve (final Fixed (final Fixed agent0 alice_history) mallory_repoint) 7 = Some (doc1 7 [8] 9 10).
 Proof. vm_compute. repeat split. Qed.
 Print Assumptions no_repoint_asis_refuted.
 
 Theorem initial_state_repoint_asis_refuted :
   let a := final AsIs agent0 alice_history in
-  resolve (final AsIs a [IRecv (MInit (Doc 7 [20] 21 30) 20 28) 0 (Doc 0 [] 0 0)]) 7 = Some (Doc 7 [20] 21 30).
+  resolve (final AsIs a [IRecv (MInit (doc1 7 [20] 21 30) 20 28) 0 doc0]) 7 = Some (doc1 7 [20] 21 30).
 Proof. vm_compute. reflexivity. Qed.
 Print Assumptions initial_state_repoint_asis_refuted.
 
 Theorem attributed_asis_refuted :
   let a := final AsIs agent0 alice_history in
-  snd (step AsIs a (IRecv (MPing 8 15) 0 (Doc 0 [] 0 0))) = [OHandled 14 7] /\
-  snd (step AsIs (final AsIs a mallory_keysteal) (IRecv (MPing 8 15) 0 (Doc 0 [] 0 0))) = [OHandled 14 41] /\
-  snd (step Fixed (final Fixed (final Fixed agent0 alice_history) mallory_keysteal) (IRecv (MPing 8 15) 0 (Doc 0 [] 0 0)))
+  snd (step AsIs a (IRecv (MPing 8 15) 0 doc0)) = [OHandled 14 7] /\
+  snd (step AsIs (final AsIs a mallory_keysteal) (IRecv (MPing 8 15) 0 doc0)) = [OHandled 14 41] /\
+  snd (step Fixed (final Fixed (final Fixed agent0 alice_history) mallory_keysteal) (IRecv (MPing 8 15) 0 doc0))
     = [OHandled 14 7].
 Proof. vm_compute. repeat split. Qed.
 Print Assumptions attributed_asis_refuted.
@@ -293,19 +293,19 @@ Print Assumptions attributed_asis_refuted.
 (* ---------- non-vacuity: the hypotheses of `mutual`/`attributed` are met by a concrete run with another
    exchange interleaved on each side and a hostile request afterwards ---------- *)
 Example mutual_nonvacuous :
-  let docB := Doc 7 [8] 9 10 in let myA := Doc 14 [15] 11 16 in
+  let docB := doc1 7 [8] 9 10 in let myA := doc1 14 [15] 11 16 in
   let A1 := final Fixed agent0 [ICreateInv 2 3; ICreateInv 50 51] in
   let B1 := agent0 in
-  let other := IRecv (MRequest DX 60 60 50 61 (Some (Doc 61 [62] 63 64))) 65 (Doc 66 [67] 11 68) in
+  let other := IRecv (MRequest DX 60 60 50 61 (Some (doc1 61 [62] 63 64))) 65 (doc1 66 [67] 11 68) in
   let B2 := fst (step Fixed B1 (IAcceptInv DX 2 3 11 12 6 docB)) in
   let A2 := fst (step Fixed A1 (IRecv (MRequest DX 6 6 2 7 (Some docB)) 17 myA)) in
   let A3 := final Fixed A2 [other] in
-  let A4 := fst (step Fixed A3 (IRecv (MComplete DX 6 6) 0 (Doc 0 [] 0 0))) in
+  let A4 := fst (step Fixed A3 (IRecv (MComplete DX 6 6) 0 doc0)) in
   let A' := final Fixed A4 mallory_repoint in
   snd (step Fixed B1 (IAcceptInv DX 2 3 11 12 6 docB)) = [OSend 11 [3] (MRequest DX 6 6 2 7 (Some docB))] /\
   snd (step Fixed A1 (IRecv (MRequest DX 6 6 2 7 (Some docB)) 17 myA)) = [OSend 9 [8] (MResponse DX 6 6 14 (Some myA) 3)] /\
-  snd (step Fixed B2 (IRecv (MResponse DX 6 6 14 (Some myA) 3) 0 (Doc 0 [] 0 0))) = [OSend 11 [15] (MComplete DX 6 6)] /\
+  snd (step Fixed B2 (IRecv (MResponse DX 6 6 14 (Some myA) 3) 0 doc0)) = [OSend 11 [15] (MComplete DX 6 6)] /\
   record A' 17 = Some (Conn Their 6 SCompleted 14 7 0) /\ resolve A' 7 = Some docB /\
   record A' 31 = Some (Conn Their 29 SAbandoned 0 7 0) /\ completed_at A3 65 = false /\
-  snd (step Fixed A' (IRecv (MPing 8 15) 0 (Doc 0 [] 0 0))) = [OHandled 14 7].
+  snd (step Fixed A' (IRecv (MPing 8 15) 0 doc0)) = [OHandled 14 7].
 Proof. vm_compute. repeat split. Qed.
